@@ -492,11 +492,10 @@ pub fn msg_class(msg: &str) -> String {
         }
     }
     // cut Debug dumps of data
-    if let Some(i) = out.find('[') {
-        out.truncate(i);
-    }
-    if let Some(i) = out.find('\n') {
-        out.truncate(i);
+    for cut in ['[', '{', '"', '\n'] {
+        if let Some(i) = out.find(cut) {
+            out.truncate(i);
+        }
     }
     trunc(out.trim(), 80)
 }
